@@ -7,6 +7,7 @@ E_main + B*tokens steps.  The skeleton (Gen/ParserSkeleton.v) is regenerated fro
 Ties: the translator; the real step counter (verif hook) against the proved bound on corpus, mutants, exhaustive short
 token sequences and deep nesting probes."""
 import os
+import lexcommon
 import searchcommon
 import verif
 
@@ -47,6 +48,9 @@ def run(rep):
                               {"input_hex": hx, "tokens": tk, "steps": steps, "E": E, "B": B, "blocking_functions": fns}, input_hex=hx)
         if res["rc"] != 0:
             broken.append({"obligation": "harness:psearch", "detail": res["err"]})
+        # lexer premise (Properties/C02_lexer.v): the lexer reaches EOF on every input, with at most one token per byte
+        if lexcommon.lexer_premise(rep, broken, ("runaway",)):
+            found = True
         rep.coverage.update({
             "evaluations": res["n"], "distinct_nontrivial": res["n"] - res["counts"].get("err", 0) // 2,
             "rule": "corpus statements, token/byte/structure mutants of them (truncate, delete, duplicate, swap, splice from a 230-word pool, drop a bracket partner, empty a range), "
